@@ -74,3 +74,7 @@ package anyutil
 //@   requires[any] any != nil
 //@   ensures[message-or-error] result1 == nil ==> result0 != nil
 //@   ensures[error-gives-nil] result1 != nil ==> result0 == nil
+
+//@ extern google.golang.org/protobuf/proto.UnmarshalOptions.Unmarshal
+//@   trusted protobuf-go; the precondition is a policy of this package: payloads are decoded with their unknown fields kept (Unpack(Pack(m)) must give back all of m)
+//@   requires[keeps-unknown-fields] !o.DiscardUnknown
